@@ -169,6 +169,36 @@ Theorem C13_remove_all_post_kernel_backend :
 Proof. exact DynRemoveTotal.remove_all_kernel_post. Qed.
 
 
+Theorem C13_remove_all_post_emulated_backend :
+  forall s rp F df fz pfuel o2 gh ps rs t root path dirp name o k rfuel,
+  StaticProofs.closed s -> fz <> 0%nat -> StaticProofs.chk_static_ok s rp F (OpathM.check_current fz o2 pfuel gh) ->
+  FSProofs.wf s df -> StaticProofs.links_ok s ->
+  rs_kernel rs = false -> DynRemoveExact.uniq s -> DynRemove.ents_ok s ->
+  path_split path = Some (Ok (dirp, Some name)) -> has_nul dirp = false -> Dyn.plain name = true ->
+  StaticProofs.Frame s F t -> Static.tget t root = Some FSModel.ROOT ->
+  FSModel.ewalk s dirp false (has (rs_flags rs) RESOLVE_NO_SYMLINKS) = FSModel.WOk o ->
+  (forall c, FSModel.lookup s o name = Some c -> FSModel.is_dir s c = true -> DynRemoveTotal.deep s k c) ->
+  (k + length (FSModel.ents s) + 6 <= rfuel)%nat ->
+  exists s' t' r,
+    Dyn.drun rp {| Dyn.ds := s; Dyn.dt := t; Dyn.dseen := [] |} (root_remove_all fz o2 pfuel gh ps rfuel rs root path) =
+      Dyn.DDone {| Dyn.ds := s'; Dyn.dt := t'; Dyn.dseen := [] |} r /\
+    (forall x, StaticBal.indom t' x -> StaticBal.indom t x) /\
+    DynRemove.shrinks s s' /\
+    (r = Ok tt -> forall e, In e (FSModel.ents s') <-> (In e (FSModel.ents s) /\ ~ DynRemove.under s o name e)).
+Proof. exact DynRemoveTotal.remove_all_emu_post. Qed.
+
+(* a caller that comes after another one succeeded (or finds the name absent for any other reason) reports success
+   and changes nothing: the sequential half of "concurrent remove_all calls all report success" *)
+Theorem C13_absent_entry_is_success_without_change :
+  forall f s d name, Dyn.plain name = true -> Dyn.too_long name = false -> FSModel.is_dir s d = true ->
+  FSModel.lookup s d name = None -> DynRemove.rm_all (S f) s d name = Some (s, Ok tt).
+Proof. exact DynRemoveTotal.rm_all_absent. Qed.
+
+Theorem C13_later_caller_succeeds_without_change :
+  forall f g s d name s', Dyn.plain name = true -> Dyn.too_long name = false -> FSModel.is_dir s d = true ->
+  DynRemove.rm_all f s d name = Some (s', Ok tt) -> DynRemove.rm_all (S g) s' d name = Some (s', Ok tt).
+Proof. exact DynRemoveTotal.rm_all_again. Qed.
+
 (* executed (non-vacuity): a/ has a sub-directory with a file, a link to a sibling and a link to the
    outside; remove_all("a") on both backends removes a and everything below, follows neither link
    (keep/ and its content stay), returns Ok; the pure function gives the same tree; remove_all of a
@@ -207,3 +237,6 @@ Print Assumptions C13_spec_removes_everything_beneath.
 Print Assumptions C13_spec_exact.
 Print Assumptions C13_spec_terminates.
 Print Assumptions C13_remove_all_post_kernel_backend.
+Print Assumptions C13_remove_all_post_emulated_backend.
+Print Assumptions C13_absent_entry_is_success_without_change.
+Print Assumptions C13_later_caller_succeeds_without_change.
